@@ -399,6 +399,10 @@ SHAPES1 = {
     "cm-nested": ([RY0, ("g", "RX", [1], []),
                    ("cm", 0, {"0": [("g", "H", [1], []), ("cm", 1, {"0": [], "1": [("g", "X", [0], [])]})], "1": [("g", "RY", [1], [])]}),
                    ("g", "CNOT", [1], [0])], 2, None),
+    "cm-nested-tail": ([RY0, ("g", "RX", [1], []),
+                        ("cm", 0, {"0": [("g", "H", [2], [])],
+                                   "1": [("g", "X", [1], []), ("cm", 1, {"0": [], "1": [("g", "X", [2], [])]}), ("g", "RY", [2], [])]}),
+                        ("g", "H", [0], []), ("m", 2), ("g", "RX", [1], [])], 3, None),
     "cm-func": ([RY0, ("g", "H", [1], []), ("cmf", 0), ("g", "RZ", [1], [])], 2,
                 {"0": [("g", "RX", [1], [])], "1": [("g", "X", [0], []), ("cmf_stop",)]}),
 }
